@@ -86,7 +86,7 @@ func (r *Report) GetCommand() sms.ICommander {
 
 func (r *Report) GenEmptyResponse() sms.PDU {
 	return &ReportResp{
-		Header: sgip.NewHeader(0, sgip.SGIP_REPORT_REP, r.Header.Sequence[0], r.GetSequenceID()),
+		Header: sgip.Header{TotalLength: 0, CommandID: sgip.SGIP_REPORT_REP, Sequence: r.Header.Sequence},
 	}
 }
 
